@@ -23,6 +23,7 @@ RULE = ('random core files (variables with differing dimension subsets, masks,'
 RULE += (" Every tenth receiver is the object one of the library's READERS returns for a valid image written by the independent codecs (CAMx memory-mapped and record readers, bpch1, bpch2, arlpackedbit, ffi1001); the call is drawn from the dimensions of the open file and judged by the same oracle on a snapshot of that file.")
 RULE += (' One receiver from disk in three (plain files) is written with netCDF4 directly, as other tools write archive files: float data variables packed (int16 with scale_factor/add_offset), masks as _FillValue; the oracle snapshots what the opened file delivers.')
 RULE += (' One case in 25: two index lists of one length (points) over a variable of a foreign file that has missing cells and no missing code of its own, one of the points being such a cell.')
+RULE += (' One case in 25 zips two dimensions that are not neighbours in a four-dimensional variable (a, z1, b, z2), with and without a slice / an integer on the others.')
 ASSUMPTIONS = [
     'oracle = numpy take/basic slicing applied axis by axis to plain copies',
     'index values are drawn inside [-n, n-1] (in-domain); out-of-range '
@@ -107,6 +108,35 @@ def gen(rng, idx, tier, seed):
             sel = [[d0[0], {'l': l0}], [d1[0], {'l': l1}]]
             return {'file': fs, 'sel': sel, 'disk': True,
                     'foreign': 'always', 'as_array': bool(rng.random() < .3)}
+    if idx % 25 == 16:
+        # points over two dimensions that are NOT neighbours in a variable
+        # that has another dimension in front of them (a, z1, b, z2): the
+        # new POINTS axis stands where z1 stood
+        for _ in range(6):
+            fs = gen_core.gen_filespec(rng, allow_char=False)
+            if len(fs['dims']) >= 4:
+                break
+        if len(fs['dims']) >= 4:
+            d = fs['dims'][:4]
+            fs['vars'].append({
+                'name': 'quad', 'dims': [x[0] for x in d],
+                'dtype': str(rng.choice(['f8', 'i4', 'f4'])), 'kind': 'data',
+                'mask': str(rng.choice(['none', 'random'])), 'fill': -999,
+                'seed': int(rng.integers(1 << 30)), 'attrs': []})
+            n = int(rng.integers(2, 5))
+            sel = [[d[1][0], {'l': [int(x) for x in
+                                    rng.integers(-d[1][1], d[1][1], n)]}],
+                   [d[3][0], {'l': [int(x) for x in
+                                    rng.integers(-d[3][1], d[3][1], n)]}]]
+            r = rng.random()
+            if r < 0.3:
+                sel.append([d[2][0], {'s': [None, None, None]}])
+            elif r < 0.5:
+                sel.append([d[0][0], {'i': int(rng.integers(0, d[0][1]))}])
+            return {'file': fs, 'sel': [sel[i] for i in
+                                        rng.permutation(len(sel))],
+                    'disk': bool(rng.random() < 0.3),
+                    'as_array': bool(rng.random() < .3)}
     if idx % 10 == 7:
         # the receiver is what a library reader returns for a valid image;
         # the selection is drawn from its dimensions once it is open
